@@ -65,6 +65,16 @@ def handleStage2 : Handler
     let n ← parseNat n; let b1 ← parseNat b1; let b2 ← parseNat b2; let p ← parseNat p; let l ← parseNat l
     if b1 ≤ 3 then some "panic" else                 -- assert!(b1 > 3)
     some (showFound n p (pm1Stage2Hits b1 b2 l) true)
+  | ["s2_pm1x", n, b1, b2, p1, p2, l] => do
+    -- p1 - 1 divides the stage-1 exponent (found by the first gcd check, then the ring shrinks to n/p1);
+    -- p2 - 1 = (part of the exponent) * l is found in stage 2 iff l is covered
+    let n ← parseNat n; let b1 ← parseNat b1; let b2 ← parseNat b2
+    let p1 ← parseNat p1; let p2 ← parseNat p2; let l ← parseNat l
+    if b1 ≤ 3 then some "panic" else
+    some (match pm1Stage2Hits b1 b2 l with
+      | none => "panic"
+      | some true => s!"some {showList (if p1 < p2 then [p1, p2] else [p2, p1])} {n / p1 / p2}"
+      | some false => s!"some {p1} {n / p1}")
   | ["s2_pm1_only", n, p, l] => do
     let n ← parseNat n; let p ← parseNat p; let l ← parseNat l
     some (showArm Stage2.pm1OnlyArms n p l)
